@@ -8,6 +8,7 @@ the argv the helper received."""
 import json
 import random
 
+import structure
 from common import Report, ToolError, chars, check_action_coverage, log, run_cases, run_tlc, std_main
 
 NAMES = ["AB", "A", "B"]
@@ -143,6 +144,8 @@ def runner(rep, tier, seed, replay):
             rep.violation("unset-stale", "`%s`: after unset the references gave %s, expected [['[][]']]" % (ln, pa),
                           {"case": {"word": "$" + n0, "env": {}, "expected": "", "feat": {}}, "form": "dq", "text": ln, "env": {}},
                           {"form": "unset", "self_ref": False, "value_has_dollar": False, "nrefs": 2})
+    # the same lines as the head of `if` / `else if` / `while` (separate code path: scripting.rs::run_exp_test_br)
+    structure.check_heads(rep, jobs, random.Random(seed), 150 if tier == "quick" else 1500, "C10")
     results = run_cases(jobs)
     # hangs are re-run once with a 10x budget before they are called violations
     slow = [i for i, res in enumerate(results) if res.get("timed_out")]
